@@ -1,7 +1,23 @@
 import Pathrs.Proofs.SafeProcfs
+import Pathrs.Proofs.KProc
 
 /-!
 # C07 — procfs lookups stay inside procfs and follow only the requested final link
+
+Besides the environment-universal facts below (creation flags, forced `O_NOFOLLOW`, `..` and absolute paths refused,
+the kernel mask, `Disc false` for the emulated walk), the two procfs resolvers are related to one specification on
+`PWorld` (`Kernel/ProcWorld.lean`: an immutable procfs tree — directories, ordinary symlinks, magic-links, files —
+whose objects carry mount ids, with the kernel's answers and `presolve`/`resolveBeneath`, the meaning of
+`openat2(RESOLVE_BENEATH|RESOLVE_NO_XDEV|RESOLVE_NO_MAGICLINKS)`):
+
+* `C07_emulated_is_spec`: for every such tree with any mounts on top of it, every non-empty sub-path without `..` and
+  every flag set of the resolver's final-component table (`FlagsOk`: what every caller in the library passes), the
+  emulated resolver returns exactly what the kernel's confined lookup returns — object or errno: a magic-link as a
+  component or followed is `ELOOP`, a mount crossing `EXDEV`, the trailing link is followed iff `O_NOFOLLOW` is absent;
+* `C07_resolvers_agree`: hence the emulated and the kernel resolver agree (unless the kernel ran out of its link budget).
+
+Excluded by hypothesis, as the property says or as known findings: the empty path and `..` (the emulated resolver refuses
+`..` outright), magic-links whose body is not absolute (F13: `PWF.magic_body`).
 -/
 
 open K Procfs
@@ -115,3 +131,24 @@ theorem C07_link_budget : MAX_SYMLINK_TRAVERSALS = 128 := rfl
 example : hasAll (O_TMPFILE ||| O_RDWR) O_TMPFILE = true := by decide
 example : hasAll O_DIRECTORY O_TMPFILE = false := by decide
 example : Path.isAbsolute b!"//status" = true := by decide
+
+/-! ### both resolvers against the specification of the confined lookup -/
+
+open KProc PWorld in
+theorem C07_emulated_is_spec {w : PWorld} (hw : PWF w) (path : Bytes) (hp : path ≠ [])
+    (hdd : Path.dotdot ∉ Path.rawComponents path) (oflags rflags : Nat) (hfl : FlagsOk oflags) :
+    Prog.prun w (Procfs.opathResolve w.base path oflags rflags) =
+      toOutP (resolveBeneath w { oflags := oflags, noSymlinks := hasAll rflags RESOLVE_NO_SYMLINKS,
+                                 maxLinks := MAX_SYMLINK_TRAVERSALS } path) :=
+  opathResolve_spec hw path hp hdd oflags rflags hfl
+
+open KProc PWorld in
+theorem C07_resolvers_agree {w : PWorld} (hw : PWF w) (env : Env) (henv : env.openat2 = true) (path : Bytes) (hp : path ≠ [])
+    (hnul : path.contains 0 = false) (hdd : Path.dotdot ∉ Path.rawComponents path) (oflags rflags : Nat)
+    (hfl : FlagsOk oflags) (hlinks : w.kernelLinks ≤ MAX_SYMLINK_TRAVERSALS)
+    (h : resolveBeneath w { oflags := oflags, noSymlinks := hasAll rflags RESOLVE_NO_SYMLINKS,
+                            maxLinks := w.kernelLinks } path ≠ .error ELOOP) :
+    Prog.prun w (Procfs.opathResolve w.base path oflags rflags)
+      = Prog.prun w (Procfs.openat2Resolve env w.base path oflags rflags) :=
+  resolvers_agree hw env henv path hp hnul hdd oflags rflags hfl hlinks h
+
